@@ -50,6 +50,12 @@ def bump0(xs: array[int, 3], k: int) -> None:
 def fsum(a: float, b: float) -> float:
     return a + b
 
+@guppy
+def selb(c: bool, a: int, b: int) -> int:
+    if c:
+        return a
+    return b
+
 @guppy.struct
 class S:
     xs: array[int, 3]
@@ -94,9 +100,12 @@ def gen_stmt(rng, k):
         return f'result("r{k}", {a} {op} {b})', f"{op}:{pos}"
     if c < 0.7:
         op = rng.choice(["+", "-", "*", "/"])
-        pos = rng.choice(["tt", "tc", "ct", "mixed"])
+        pos = rng.choice(["tt", "tc", "ct", "mixed", "mixed_r", "cf_ti", "ti_cf", "ci_tf", "tf_ci"])
         const = rng.choice(["0.5", "2.0", "1.5"])
-        a, b = {"tt": ("f", "g"), "tc": ("f", const), "ct": (const, "g"), "mixed": ("x", "f")}[pos]
+        ci = str(rng.randint(1, 9))
+        a, b = {"tt": ("f", "g"), "tc": ("f", const), "ct": (const, "g"), "mixed": ("x", "f"),
+                "mixed_r": ("f", "y"), "cf_ti": (const, "y"), "ti_cf": ("x", const),
+                "ci_tf": (ci, "g"), "tf_ci": ("f", ci)}[pos]
         return f'result("r{k}", {a} {op} {b})', f"f{op}:{pos}"
     if c < 0.76:
         op = rng.choice(["-", "~", "+"])
@@ -110,6 +119,13 @@ def gen_stmt(rng, k):
                         "ys = array(x, y, 7)\n    result(\"r{k}\", ys)",
                         "p = P(x, f)\n    result(\"r{k}\", p.a)", "p = P(y, g)\n    result(\"r{k}\", p.b)"])
         return v.replace("{k}", str(k)), "container:" + v.split(" = ")[1].split("(")[0]
+    if c < 0.915:
+        # literal call arguments of equal value but different type (3 / 3.0, 1 / True) in one body
+        n_ = rng.randint(0, 3)
+        v = rng.choice([f'result("r{{k}}", add3({n_}, x, {rng.randint(0, 3)}))', f'result("r{{k}}", fsum({n_}.0, f))',
+                        f'result("r{{k}}", fsum(f, {n_}.0))', f'result("r{{k}}", selb({rng.choice(["True", "False"])}, x, y))',
+                        f'result("r{{k}}", {n_}.0)', f'result("r{{k}}", {n_})'])
+        return v.replace("{k}", str(k)), "call:literal-" + ("float" if ".0" in v else ("bool" if "selb" in v else "int"))
     if c < 0.95:
         v = rng.choice(['result("r{k}", add3(x, y, 5))', 'result("r{k}", add3(1, x, y))',
                         'result("r{k}", fsum(f, 0.25))', 'result("r{k}", add3(x, add3(y, 1, 2), 3))'])
@@ -136,7 +152,9 @@ def gen_stmt(rng, k):
             f'l{k} = array({e[0]}, {e[1]}, {e[2]})\n    bump(l{k}, 1)\n    result("r{k}", l{k}[1] + l{k}[0])',
             f's{k} = S(array({e[0]}, {e[1]}, {e[2]}), {e[3]})\n    bump_s(s{k})\n    bump_s(s{k})\n    result("r{k}", s{k}.xs)',
             f's{k} = S(array({e[0]}, {e[1]}, {e[2]}), {e[3]})\n    bump_s(s{k})\n    result("r{k}", s{k}.xs[0] + s{k}.k)',
-            f't{k} = (array({e[0]}, {e[1]}, {e[2]}), {e[3]})\n    bump_t(t{k})\n    bump_t(t{k})\n    result("r{k}", t{k}[0])',
+            # (the int slot of a lent *tuple* must be a traced value: a Python tuple holding a plain
+            # Python int cannot be borrowed at comptime by design — "Cannot borrow Python object")
+            f'w{k} = x + {rng.randint(0, 3)}\n    t{k} = (array({e[0]}, {e[1]}, {e[2]}), w{k})\n    bump_t(t{k})\n    bump_t(t{k})\n    result("r{k}", t{k}[0])',
         ])
         return pre_s + v, "call:borrow-mutate-local-" + v[0]
     v = (f'u{k} = x + 1\n    l{k} = array(u{k}, 4, 5)\n    bump0(l{k}, y)\n    result("r{k}", u{k})')
@@ -191,12 +209,19 @@ def judge(ctx, body, main, stmts):
         return {"status": "violated", "mech": f"C21:{which}-compile-crash:" + (reg if reg[0] == "crash" else cmp_)[1].split(" ")[0],
                 "witness": {"body": body, "main": main, "regular": repr(reg)[:500], "comptime": repr(cmp_)[:500]},
                 "counters": counters}
+    if reg[0] == "rejected" and cmp_[0] == "rejected":
+        return {"status": "discard", "fp": None, "detail": "both modes reject", "counters": {"both_rejected": 1}}
     if reg[0] == "rejected" or cmp_[0] == "rejected":
-        both = reg[0] == cmp_[0]
-        return {"status": "discard", "fp": None,
-                "detail": ("both modes reject" if both else f"only one mode accepts (regular={reg[0]}, comptime={cmp_[0]}): "
-                           + repr(reg if reg[0] == "rejected" else cmp_)[:300]),
-                "counters": {"both_rejected" if both else "only_one_mode_accepts": 1}}
+        # every generated statement is accepted by both modes on the unchanged tree (operators,
+        # int/float/len, containers, calls — the operations the property lists), so a body that only
+        # one mode accepts does not "behave identically"
+        which = "regular" if reg[0] == "rejected" else "comptime"
+        msg = (reg if reg[0] == "rejected" else cmp_)[1]
+        import re as _re
+        key = _re.sub(r"`[^`]*`", "`_`", msg.strip().split("\n")[0])[:60]
+        return {"status": "violated", "mech": f"C21:rejected-in-{which}-mode-only:{key}",
+                "witness": {"body": body, "main": main, "regular": repr(reg)[:400], "comptime": repr(cmp_)[:400]},
+                "counters": counters}
     counters["programs_emulated"] = 2
     rs, cs = split(reg[-1]), split(cmp_[-1])
     viols = []
